@@ -482,6 +482,12 @@ fn gen(seed: u64, n: usize, tier: &str) -> Vec<Value> {
             }
             trains.push(tr);
         }
+        // one scenario in three: the train list is rotated, so that departure order differs from index order (the
+        // planner indexes trains in list order; a higher-index train may finish before a lower-index one departs)
+        if r.chance(1, 3) && trains.len() >= 2 {
+            let k = r.range(1, trains.len() as i64 - 1) as usize;
+            trains.rotate_left(k);
+        }
         // one scenario in four: a single-track link only 0..15 m longer than one of the trains (its Clear event and the
         // Arrive event of the next link then fall into the same simulation step); never before a first / after a last "J"
         if r.chance(1, 4) && stages.len() >= 2 {
